@@ -1518,3 +1518,54 @@ def rule_single_member_read_guarded(ctx):
                         else:
                             r.violation(anchor, "unguarded-single-member-read", "the method answers for the member at a constant position of its list and nothing restricts the list to one member (%s): a list of several arguments is answered as that member alone, not as the disjunction" % (", ".join(seen) or "no test of the length"), s.loc())
     r.floor(n, 4, "constant-position reads of a query list")
+
+
+def rule_plain_status_follows_model(ctx, kind=None):
+    """C02 / C03: a plain acceptance method that reads the status off a SAT result"""
+    prog = ctx.prog
+    from ..prov import prov, show, subterms
+
+    r = ctx.rule(
+        "plain-status-follows-the-model",
+        "a static solver's acceptance method that returns `model.is_some()` / `model.is_none()` of its own SAT call: when the call asks for an "
+        "extension containing a listed argument (their literals as they are, in a clause or among the assumptions) a model means YES for a "
+        "credulous query; when it asks for one containing none of them (negated literals assumed) a model means NO for a skeptical query",
+    )
+    n = 0
+    for tr, k in ((CRED, "credulous"), (SKEP, "skeptical")):
+        if kind is not None and kind != k:
+            continue
+        for imp in prog.impls_of_trait(tr):
+            if not (imp.get("self_adt") or "").startswith("solvers::"):
+                continue
+            for m in imp["methods"]:
+                b = prog.lib(m["path"])
+                if b is None or b.ret_ty != "bool":
+                    continue
+                for e in prov(prog, b, {"l": 0, "p": []}):
+                    neg = False
+                    while e[0] == "op" and e[1] == "Not":
+                        neg = not neg
+                        e = e[2][0]
+                    if not (e[0] == "call" and re.search(r"Option::is_(some|none)$", e[1]) and any(isinstance(t, tuple) and t[0] == "call" and t[1].endswith("SolvingResult::unwrap_model") for t in subterms(e))):
+                        continue
+                    says_model = e[1].endswith("is_some") != neg
+                    # what the call asks
+                    pols = set()
+                    for s in b.calls():
+                        if callee_matches(callee_of(s), r"sat_solver::SatSolver::(add_clause|solve_under_assumptions)$"):
+                            for l in tags.literals_of(prog, b, s.node["args"][1], list_params_of(b)):
+                                if l.role == "ARG" and l.pos is not None:
+                                    pols.add(l.pos)
+                    n += 1
+                    if len(pols) != 1:
+                        r.ok(b.id, "NOT decided: the polarity of the listed arguments in the SAT call is not one (%s)" % sorted(pols), b.loc())
+                        continue
+                    asks_member = next(iter(pols))
+                    if (k == "credulous") != asks_member:
+                        r.ok(b.id, "NOT decided: a %s query that asks for an extension %s the listed arguments" % (k, "with" if asks_member else "without"), b.loc())
+                        continue
+                    want_model = (k == "credulous")
+                    r.check(says_model == want_model, b.id, "status-inverted", "%s: YES exactly when the SAT call has %s" % (k, "a model" if want_model else "no model"), "the %s query answers YES exactly when its SAT call has %s, although the call asks for an extension %s a listed argument: the status is inverted" % (k, "a model" if says_model else "no model", "containing" if asks_member else "containing no"), b.loc())
+    if n == 0:
+        r.ok("plain", "NOT decided: no plain acceptance method reads its status off `is_some()` / `is_none()` of a model", None)
